@@ -279,6 +279,10 @@ def dag_model(rng):
     if rng.random() < 0.03:
         n = rng.choice([1000, 3000])
     shape = rng.choice(["linear", "random", "diamond", "octopus", "multiroot", "crisscross"])
+    if rng.random() < 0.12:
+        # wide octopus merges ("30 stars" = 300 parents is crossed)
+        shape = "octopus"
+        n = rng.choice([40, 66, 72, 130, 305, 330])
     tsp = rng.choice(G.TS_PROFILES)
     # few distinct trees to keep it cheap
     trees = [pool.new_tree(max_depth=1, max_entries=3) for _ in range(3)]
